@@ -7,7 +7,7 @@
 From Coq Require Import List Bool ZArith Lia.
 Import ListNotations.
 From Rosed Require Import Base.Res Base.ListX Base.Utf8 Base.Str Gem.Segment Gem.GString Model.Manip Model.Table Model.Options Model.Editor Model.Ops
-     Proofs.C04P Proofs.C14P Proofs.C18P Proofs.SeamP Proofs.C18Q Proofs.C18R Proofs.C14R Proofs.C18S Proofs.C18T Proofs.C18U.
+     Proofs.C04P Proofs.C14P Proofs.C18P Proofs.SeamP Proofs.C18Q Proofs.C18R Proofs.C14R Proofs.C18S Proofs.C18T Proofs.C18U Proofs.Utf8SplitP Proofs.C18V.
 Open Scope Z_scope.
 
 (* Chars / Insert / Delete / Overtype on any valid UTF-8 text, any integer positions *)
@@ -179,3 +179,36 @@ Proof.
   exact (conj (fun Hx => insert_valid p x e r He Hx) (conj (delete_valid p q e r He) (overtype_valid p x e r He))).
 Qed.
 Print Assumptions C18_valid_edits.
+
+(* UTF-8 is self-synchronising: Split, Join and ReplaceAll on the bytes of valid texts are Split,
+   Join and ReplaceAll on their code points (the model uses one set of string functions at both
+   levels on this ground) *)
+Theorem C18_bytes_and_code_points : forall rs q new l, scalars rs -> scalars q ->
+  (q <> [] -> split (encode rs) (encode q) = map encode (split rs q)) /\
+  join (encode q) (map encode l) = encode (join q l) /\
+  replace_all (encode rs) (encode q) (encode new) = encode (replace_all rs q new).
+Proof.
+  intros rs q new l Hs Hq.
+  exact (conj (fun Hne => split_encode rs q Hne Hs Hq) (conj (join_encode q l) (replace_all_encode rs q new Hs Hq))).
+Qed.
+Print Assumptions C18_bytes_and_code_points.
+
+(* hence the lines (paragraphs, ...) of a valid text at a valid separator are valid *)
+Theorem C18_valid_pieces : forall s sep, valid_utf8 s = true -> valid_utf8 sep = true -> sep <> [] ->
+  Forall (fun x => valid_utf8 x = true) (split s sep).
+Proof. exact split_valid. Qed.
+Print Assumptions C18_valid_pieces.
+
+(* line mode on valid text: every line function that maps valid lines to valid lines; Indent *)
+Theorem C18_valid_line_mode_valid_text : forall (C : Classifier) (U : Upper) (op : line_op) opts e r,
+  (forall k l r, valid_utf8 l = true -> op k l = Ok r -> Forall (fun x => valid_utf8 x = true) r) ->
+  valid_utf8 (e_text e) = true -> valid_utf8 (o_linesep (with_defaults opts)) = true ->
+  apply_opts op opts e = Ok r -> valid_utf8 (e_text r) = true.
+Proof. intros C U. exact apply_opts_valid_lines. Qed.
+Print Assumptions C18_valid_line_mode_valid_text.
+
+Theorem C18_valid_indent_lines : forall (C : Classifier) (U : Upper) level opts e r, o_preserve (with_defaults opts) = false ->
+  valid_utf8 (e_text e) = true -> valid_utf8 (o_linesep (with_defaults opts)) = true -> valid_utf8 (o_indent (with_defaults opts)) = true ->
+  indent_opts level opts e = Ok r -> valid_utf8 (e_text r) = true.
+Proof. intros C U. exact indent_valid_lines. Qed.
+Print Assumptions C18_valid_indent_lines.
